@@ -86,7 +86,7 @@ def live_case(spec, res):
     rnd = rng_for(spec['seed'], 'C02-live', spec['idx'])
     ls = livehist.gen_spec(rnd, nsteps=5, stop_heavy=True)
     # next to an idle on-demand watcher (stream or datagram socket) that nobody contacts
-    ls['on_demand'] = ['dgram', True, False][spec['idx'] % 3]
+    ls['on_demand'] = ['dgram', 'trigger', False][spec['idx'] % 3]
     rec = livehist.run(ls, strace=False, probe=False)
     if rec['problem']:
         res.inconclusive.append('live: ' + rec['problem'][:200])
